@@ -205,6 +205,12 @@ var skels = []skel{
 	{"join-key", "id", func(_ *E, id Ident) *Program {
 		return Query("T", &Op{K: "join", Right: &Pipe{Table: Ident{Name: "U"}}, Conds: []*E{Bin("==", &E{K: "name", Parts: []Ident{{Name: "$left"}, id}}, &E{K: "name", Parts: []Ident{{Name: "$right"}, id}})}})
 	}},
+	{"join-qualifier", "id", func(_ *E, id Ident) *Program {
+		return Query("T", &Op{K: "join", Right: &Pipe{Table: Ident{Name: "U"}}, Conds: []*E{Name("k"), Bin("==", &E{K: "name", Parts: []Ident{id, {Name: "a"}}}, Name("$right", "a"))}})
+	}},
+	{"join-qualifier-right", "id", func(_ *E, id Ident) *Program {
+		return Query("T", &Op{K: "join", Kind: "inner", Right: &Pipe{Table: Ident{Name: "U"}}, Conds: []*E{Bin("==", Name("$left", "a"), &E{K: "name", Parts: []Ident{id, {Name: "a"}}})}})
+	}},
 	{"join-table", "id", func(_ *E, id Ident) *Program {
 		return Query("T", &Op{K: "join", Kind: "leftouter", Right: &Pipe{Table: id}, Conds: []*E{Name("k")}})
 	}},
@@ -367,10 +373,13 @@ func generate(w *mon.W) {
 			}
 			// names that look like the compiler's own (generated subquery names,
 			// join aliases, render columns, built-ins) followed by hostile content
-			for _, pre := range []string{"__subquery0", "__subquery", "$left", "$right", "render_prop_", "render_type", "count()", "NULL", "true", "let", "T"} {
+			for _, pre := range []string{"__subquery0", "__subquery", "$left", "$right", "$LEFT", "$Right", "$RIGHT", "$Left", "render_prop_", "render_type", "Render_Prop_", "count()", "COUNT()", "NULL", "Null", "true", "TRUE", "let", "LET", "T"} {
 				for _, f := range prefixFills {
 					if strings.Contains(f, "\n") {
 						continue
+					}
+					if strings.HasPrefix(sk.name, "join-qualifier") && (pre+f == "$left" || pre+f == "$right") {
+						continue // a quoted `$left` qualifier is the left side itself: the name selects what it refers to
 					}
 					c := &Case{Skel: sk.name, Kind: "id", Fill: pre + f}
 					w.Do(fmt.Sprintf("%s|%s", sk.name, pre+f), func(r *mon.R) { Check(c, r) })
@@ -575,6 +584,10 @@ func Check(c *Case, r *mon.R) {
 		wantNum = t[0].Num
 	}
 	allowed := map[string]bool{c.Fill: true, "render_prop_" + c.Fill: true}
+	if c.Skel == "render-prop-name" {
+		// a property name is always prefixed, also when it starts with the prefix itself
+		allowed = map[string]bool{"render_prop_" + c.Fill: true}
+	}
 	var allowedStr map[string]bool
 	if c.Kind == "both" {
 		// each token kind has its own expected content
